@@ -420,3 +420,18 @@ Proof.
   exfalso. assert (k * (a + b * (Sx / k) + c * (Sy / k)) <= 0); [|lra].
   rewrite <- (Qmult_0_r k). apply Qmult_le_l; [exact Hk|exact H].
 Qed.
+
+(* statements used by Props/C19.v *)
+Lemma oriented_cells_closed g c : oriented1 g = true -> (c < g_nc g)%nat ->
+  signs_ok (cell_sfaces g c) /\ closed (cell_sfaces g c).
+Proof. intros H Hc. split; [apply oriented_signs; exact H|apply oriented_closed; assumption]. Qed.
+
+Lemma output_1d h c f1 s1 f2 s2 : cell_faces1 h c = [(f1, s1); (f2, s2)] ->
+  (vol1 h c = Qabs (xface h f1 - xface h f2) /\ cc1 h c = (1 # 2) * (xface h f1 + xface h f2)) /\
+  forall f e c' s, first_entry h f = Some (e, c', s) ->
+    normal1 h f = if flip_rule (xface h f - cc1 h c') (tangent1 h) s
+                  then - tangent1 h else tangent1 h.
+Proof.
+  intro H. split; [eapply cell1_form; exact H|].
+  intros f e c' s Hf. eapply normal1_form. exact Hf.
+Qed.
